@@ -2,8 +2,8 @@
 """tools/store_seed.py <prop> <k> <caught_by text>: copy a confirmed seeded change from /tmp/seedout into seeded/"""
 import json, os, shutil, sys
 prop, k, caught = sys.argv[1], sys.argv[2], sys.argv[3]
-src = '/tmp/seedout/%s' % prop
-dst = '/verif/seeded/%s-%s' % (prop, k)
+src = (sys.argv[4] if len(sys.argv) > 4 else '/tmp/seedout') + '/%s' % prop
+dst = '/verif/seeded/%s-%s' % (prop, sys.argv[5] if len(sys.argv) > 5 else k)
 os.makedirs(dst, exist_ok=True)
 shutil.copy('%s/patch_%s.diff' % (src, k), dst + '/patch.diff')
 shutil.copy('%s/demo_%s.py' % (src, k), dst + '/demo.py')
